@@ -208,6 +208,8 @@ func checkC11(c *Ctx) {
 	}
 	r.Rule("R11i", "a body that cannot be decoded is answered with the structured 400 whatever bytes it contains (shared with C10/R10j: the decoder's error text is sanitised before it becomes a proto3 string)", 1)
 	decodeErrorTextSanitised(c, "R11i")
+	r.Rule("R11k", "no emitted MarshalJSON/UnmarshalJSON hands its own receiver to json.Marshal/json.Unmarshal (unbounded recursion: the process dies instead of answering 400)", 1)
+	codecPairShape(c, "", "R11k")
 	r.Rule("R11j", "a URL value that cannot be converted is answered with the structured 400 whatever bytes it decodes to: the binders put the raw value into the violation text only under %q (shared with C02/R02q)", 2)
 	if ep, err := c.ServerRuntime(); err == nil {
 		urlValueNotEchoed(c, ep, "R11j")
